@@ -213,6 +213,47 @@ def final_oracle(ctx):
             fails.append({"kind": "dim-root", "a": repr(a), "n": n})
         if a ** 2 * a ** n is not a ** (n + 2):
             fails.append({"kind": "dim-pow-add", "a": repr(a), "n": n})
+    # the same after a NEW FUNDAMENTAL DIMENSION is defined at run time (this is the last thing the chunk does:
+    # the model does not follow the re-keying): every interned dimension, named or anonymous, must have been
+    # widened, so that expressions over old and new dimensions still meet in one object
+    try:
+        before = list(Dimension._known.values())
+        fresh = Dimension.define("verif-c02-dimension-%d" % ctx.rng.randrange(10**9), "")
+        dims2 = list(Dimension._known.values())
+        widths = {len(d.exponents) for d in dims2}
+        ctx.oracle_checks += 1
+        if len(widths) != 1 or any(d not in dims2 for d in before):
+            fails.append({"kind": "dim-define-rekey", "widths": sorted(widths)})
+        for _ in range(200):
+            a, b = ctx.rng.choice(before), ctx.rng.choice(before + [fresh])
+            n = ctx.rng.randint(-4, 4)
+            ctx.oracle_checks += 4
+            try:
+                if a * b is not b * a:
+                    fails.append({"kind": "dim-comm-after-define", "a": repr(a), "b": repr(b)})
+                if (a * b) / b is not a:
+                    fails.append({"kind": "dim-inv-after-define", "a": repr(a), "b": repr(b)})
+                if n and (a ** n).root(n) is not a:
+                    fails.append({"kind": "dim-root-after-define", "a": repr(a), "n": n})
+                if a ** 2 * a ** n is not a ** (n + 2):
+                    fails.append({"kind": "dim-pow-add-after-define", "a": repr(a), "n": n})
+            except Exception as e:  # noqa: BLE001
+                fails.append({"kind": "dim-law-raises-after-define", "a": repr(a), "b": repr(b), "error": type(e).__name__})
+        units = ctx.sess.units
+        for _ in range(100):
+            u, v = ctx.rng.choice(units), ctx.rng.choice(units)
+            ctx.oracle_checks += 1
+            try:
+                w = u * v
+                if w.dimension is not u.dimension * v.dimension:
+                    fails.append({"kind": "unit-dim-after-define", "u": str(u), "v": str(v)})
+            except (ValueError, OverflowError):
+                pass          # cross-base / out-of-range prefixes: not this check's business
+            except Exception as e:  # noqa: BLE001
+                fails.append({"kind": "unit-law-raises-after-define", "u": str(u), "v": str(v), "error": type(e).__name__})
+    except Exception as e:  # noqa: BLE001
+        fails.append({"kind": "dim-define-raises", "error": repr(e)})
+    fails = fails[:12]
     # same-base prefixes
     for _ in range(200):
         p, q = ctx.rng.choice(ctx.si_prefixes), ctx.rng.choice(ctx.si_prefixes)
